@@ -9,7 +9,7 @@ import corpus
 FRONT = ("syntax", "indexing", "lowering", "validation")
 
 
-def to_record(r, want_link):
+def to_record(r, want_link, ct_bad=None):
     """one harness JobResult -> one trace record of TracePipeline.tla"""
     herr = any(d["sev"] == "error" and d["phase"] in FRONT for d in r["diags"])
     terr = any(d["sev"] == "error" and d["phase"] == "ty" for d in r["diags"])
@@ -33,6 +33,13 @@ def to_record(r, want_link):
     done = False
     if "frontend" in stages:
         ev.append("frontend")
+        # comptime blocks that were compiled and run while inferring print a marker byte 1..8
+        seen = []
+        for ch in r.get("compiler_stdout_markers", ""):
+            if ch not in seen:
+                seen.append(ch)
+        if ct_bad is not None:
+            ev += ["ct:" + ch for ch in seen]
         if "infer" in stages:
             ev.append("infer")
             if any(not d["render_ok"] for d in r["diags"]):
@@ -63,11 +70,12 @@ def to_record(r, want_link):
     if not done:
         stop()
     return {"id": r["id"], "ev": ev, "herr": herr, "terr": terr, "texpr": texpr,
-            "unsafe": r["any_unsafe"], "entries": r["entry_count"], "want_link": want_link}
+            "unsafe": r["any_unsafe"], "entries": r["entry_count"], "want_link": want_link,
+            "ct_bad": list(ct_bad or [])}
 
 
-def validate(chk, name, jobs, results, want_link, on_bad):
-    recs = [to_record(r, want_link) for r in results]
+def validate(chk, name, jobs, results, want_link, on_bad, ct_bad=None):
+    recs = [to_record(r, want_link, (ct_bad or {}).get(j["id"])) for j, r in zip(jobs, results)]
     trace = os.path.join(chk.wd, name + ".trace.ndjson")
     common.write_ndjson(trace, recs)
     res = common.run_tlc("TracePipeline", "TracePipeline.cfg", chk.wd, workers=1, timeout=3000,
